@@ -46,6 +46,8 @@ def gcase(r):
 
 
 def replay_of(r, oi=None, msg=None):
+    if r["k"] == "conc":
+        return dict(r, monitor=msg)
     d = {"kind": r["k"], "history_index": r["idx"]}
     if r["k"] == "hist":
         d.update(watcher_queues=[{"chain": c, "capacity": cap, "initial_fill": f} for c, cap, f in zip(r["chains"], r["caps"], r["fill"])],
@@ -59,7 +61,7 @@ def replay_of(r, oi=None, msg=None):
 
 
 def mon_key(m):
-    for pat, k in (("blocked", "blocked"), ("did not return", "blocked"), ("did not take", "blocked"), ("although it was already forwarded", "window"),
+    for pat, k in (("blocked", "blocked"), ("did not return", "blocked"), ("did not take", "blocked"), ("although it was already forwarded", "window"), ("forwarded twice at the same instant", "window"),
                    ("not forwarded", "not-forwarded-again"), ("names another chain", "wrong-chain"), ("does not name", "wrong-chain"),
                    ("full queue", "post-full"), ("queue with room", "post-room"), ("purge ticker", "ticker")):
         if pat in m:
@@ -74,12 +76,24 @@ def run(ctx):
         core.coq_thorough_audit(ctx, "C17")
     rc, out, trace = core.harness_pkg(ctx, "guardiand_reobs", "^TestVerifC17$", timeout=1800, race=(ctx.tier == "thorough"))
     rows = core.read_jsonl(trace)
+    # schedules: concurrent producers and concurrently reading watchers (own trace file; -race in the thorough tier)
+    rc2, out2, trace2 = core.harness_pkg(ctx, "guardiand_reobs", "^TestVerifC17Conc$", timeout=1800, race=(ctx.tier == "thorough"))
+    conc = [r for r in core.read_jsonl(trace2) if r.get("k") == "conc"]
+    if rc2 != 0 or not conc:
+        ctx.problem("correspondence", "go harness C17 (concurrent schedules)", out2[-1500:])
+    if "DATA RACE" in out or "DATA RACE" in out2:
+        ctx.problem("monitor", "the race detector reports a data race in the dispatcher", (out + out2)[(out + out2).index("DATA RACE") - 50:][:1500], concrete=True,
+                    replay={"race_report": (out + out2)[(out + out2).index("DATA RACE") - 50:][:3000]}, key="race")
     consts = [r for r in rows if r.get("k") == "consts"]
     rows = [r for r in rows if r.get("k") in ("hist", "post")]
     if rc != 0 or not rows:
         ctx.problem("correspondence", "go harness C17", out[-1500:])
         return
     hists = [r for r in rows if r["k"] == "hist"]
+    rows = rows + conc
+    ctx.cov["concurrent_runs"] = {"runs": len(conc), "epochs": sum(r["epochs"] for r in conc), "requests_sent": sum(r["sent"] for r in conc),
+                                  "delivered": sum(r["delivered"] for r in conc), "epochs_with_slow_watchers": sum(r["epochs_with_slow_watchers"] for r in conc),
+                                  "max_deliveries_of_one_key": max([r["max_deliveries_of_one_key"] for r in conc] or [0]), "race_detector": ctx.tier == "thorough"}
     nops = sum(len(r["ops"]) for r in hists) + sum(len(r["posts"]) for r in rows if r["k"] == "post")
     ctx.evaluations = nops
     ctx.distinct = len({(r["idx"], i) for r in hists for i, o in enumerate(r["ops"]) if o["k"] == "req"}) + sum(len(r["posts"]) for r in rows if r["k"] == "post")
@@ -133,15 +147,16 @@ def run(ctx):
     seen = {}
     nmon = 0
     for r in rows:
-        for m, oi in zip(r.get("mon") or [], r.get("monop") or []):
+        for m, oi in zip(r.get("mon") or [], r.get("monop") or [None] * len(r.get("mon") or [])):
             nmon += 1
             k = mon_key(m)
             if k in seen:
                 continue
             seen[k] = 1
-            ctx.problem("monitor", m, "observed on the implementation (%s %d)" % (r["k"], r["idx"]), concrete=True, replay=replay_of(r, oi, m), key=k)
+            ctx.problem("monitor", m, "observed on the implementation (%s %d)" % (r["k"], r.get("idx", r.get("run", 0))), concrete=True, replay=replay_of(r, oi, m), key=k)
     ctx.cov["monitor_failures"] = nmon
     # model vs implementation
+    rows = [r for r in rows if r["k"] in ("hist", "post")]
     bad = run_cases_retry(ctx, "cases_C17", rows, HDR, "dcase", gcase, "(* ok : dcase -> bool is WH.model.ReobserveRun.ok *)", ["model/ReobserveRun.vo"],
                           weight=lambda r: len(r.get("ops") or []) + len(r.get("posts") or []))
     if bad is None:
